@@ -450,6 +450,101 @@ def run_json_rows(ck, cases, label):
         h["multibyte_key_written_as_escapes"] += esc
 
 
+ANCHORED = re.compile(rb"^(?:\^|\\A)([A-Za-z0-9_ ]+)(?:\$|\\z)$")
+
+
+def fp_table_rows(ck, cases, label):
+    """the fingerprint oracle table of the chain cases is filled by the real `fingerprint` (hash.go, code under test): a sample of
+    its rows (label sets that actually passed a tap: extracted, renamed, dropped ...) is put through the structure check too --
+    CityHash64 of every key / value / descriptor from the library, the (sum, xor, product) structure from the model"""
+    import hashlib
+    rows = {}
+    for c in cases:
+        for r in (c.get("tab") or {}).get("fp") or []:
+            rows.setdefault(json.dumps(r["labels"] or {}, sort_keys=True), r)
+    cap = ck.n(250, 3000)
+    keys = sorted(rows, key=lambda k: hashlib.sha1(k.encode()).hexdigest())[:cap]
+    if not keys:
+        return []
+    src = os.path.join(ck.work, "fp_rows_%s_in.jsonl" % label)
+    dst = os.path.join(ck.work, "fp_rows_%s.jsonl" % label)
+    with open(src, "w") as f:
+        for i, k in enumerate(keys):
+            f.write(json.dumps({"id": 3000000 + i, "mode": "fp", "class": "fp+table-row", "fp_labels": rows[k]["labels"] or {}, "out": {"err": "", "entries": []}}) + "\n")
+    rc, out = ck.go_run("inteng", ["--cases", src, "--out", dst])
+    if rc != 0:
+        ck.obligation("%s: harness inteng ran the fingerprint-table rows" % label, False, out[-1500:])
+        return []
+    res = load(dst)
+    bad = [c for c, k in zip(res, keys) if c["fp_out"] != rows[k]["fp"]]
+    ck.obligation("%s: the fingerprint oracle table holds what `fingerprint` returns (%d sampled of %d distinct label sets that passed a tap; the sample also goes through the hash.go structure check)" % (label, len(keys), len(rows)),
+                  not bad, "label sets: %s" % [c["fp_labels"] for c in bad[:3]])
+    h = ck.extra.setdefault("oracle_audit_fp", {"distinct_label_sets_in_tables": 0, "structure_checked": 0})
+    h["distinct_label_sets_in_tables"] += len(rows)
+    h["structure_checked"] += len(res)
+    return res
+
+
+def run_oracle_audit(ck, cases, label):
+    """where the oracle tables of the chain cases come from.  regexp / ParseFloat rows: the library called by the harness.  json /
+    logfmt rows: the stage under test on the single line, every row cross-checked against the model over the tree / pairs of the
+    decoder library (run_json_rows / run_logfmt_rows) -- rows that escape that cross-check are counted here.  template rows: the
+    library (harness refRender); the stage's own rendering of the single entry is recorded next to it and must agree."""
+    h = ck.extra.setdefault("oracle_audit", {"tmpl_rows": 0, "tmpl_rows_dropped": 0, "parse_rows": 0, "parse_rows_not_cross_checked": 0, "re_rows": 0,
+                                             "re_rows_anchored_literal": 0, "re_rows_anchored_literal_on_a_line_that_only_contains_it": 0,
+                                             "cases_line_filter_anchored_literal": 0, "cases_where_substring_reading_changes_the_result": 0})
+    bad_t, seen_t = [], set()
+    unchecked = []
+    for c in cases:
+        tab = c.get("tab") or {}
+        for r in tab.get("tmpl") or []:
+            key = json.dumps([r.get("tmpl"), r.get("labels")], sort_keys=True)
+            if key in seen_t:
+                continue
+            seen_t.add(key)
+            h["tmpl_rows"] += 1
+            h["tmpl_rows_dropped"] += not r["ok"]
+            if bool(r["ok"]) != bool(r.get("stage_ok")) or (r["ok"] and r["s"] != r.get("stage_s")):
+                bad_t.append((c, r))
+        ops = {i: st.get("op") for i, st in enumerate(c["chain"]) if st["k"] == "parser"}
+        for r in tab.get("parse") or []:
+            h["parse_rows"] += 1
+            op = ops.get(r["id"])
+            if (op == "json" and not (r.get("json") and r.get("plain"))) or (op == "logfmt" and not r.get("logfmt")) or op not in ("json", "logfmt"):
+                h["parse_rows_not_cross_checked"] += 1
+                if r.get("ok"):
+                    unchecked.append((c, r))
+        # regular-expression rows: anchored literals on lines that contain the literal without being it
+        lf = {unhex(st.get("val", "")): st["op"] for st in c["chain"] if st["k"] == "line_filter" and st.get("op") in ("|~", "!~")}
+        changes = False
+        for r in tab.get("re") or []:
+            h["re_rows"] += 1
+            m = ANCHORED.match(unhex(r["pat"]))
+            if not m:
+                continue
+            h["re_rows_anchored_literal"] += 1
+            subj = unhex(r["subj"])
+            if m.group(1) in subj and subj != m.group(1):
+                h["re_rows_anchored_literal_on_a_line_that_only_contains_it"] += 1
+                if unhex(r["pat"]) in lf and not r["m"]:
+                    changes = True
+        h["cases_line_filter_anchored_literal"] += any(ANCHORED.match(p_) for p_ in lf)
+        h["cases_where_substring_reading_changes_the_result"] += changes
+    ck.obligation("%s: the line a fresh LineFormatterPlanner renders for a single entry = what text/template renders with the documented function set (harness refRender; the template oracle table is filled from the library, not from the stage) on %d distinct (template, labels) rows" % (label, len(seen_t)),
+                  not bad_t, "; ".join("%s on %s: library %s, stage %s" % (r.get("tmpl"), r.get("labels"), (r["ok"], unhex(r["s"] or "")), (r.get("stage_ok"), unhex(r.get("stage_s") or ""))) for _, r in bad_t[:3]))
+    if bad_t:
+        c, r = min(bad_t, key=lambda p: (len(json.dumps(p[1].get("labels"))), size_of(p[0])))
+        lbl = dict(r.get("labels") or {})
+        line = lbl.pop("_entry", "")
+        ck.violation({"property": PID, "kind": "| line_format renders a line differently from the LogQL definition (text/template over the labels and _entry)",
+                      "query": '{app="x"} | line_format %s' % json.dumps(r.get("tmpl")), "template": r.get("tmpl"), "labels": lbl, "line": line,
+                      "definition": {"rendered": r["ok"], "line": unhex(r["s"] or "").decode("utf8", "replace")},
+                      "observed": {"rendered": r.get("stage_ok"), "line": unhex(r.get("stage_s") or "").decode("utf8", "replace")},
+                      "replay": "LineFormatterPlanner{Template: template} on the single entry (labels, line): harness inteng --cases with {\"query\": ..., \"in\": [[{\"labels\": ..., \"msg\": hex(line)}]]}"})
+    ck.obligation("%s: every row of the json / logfmt decode table that assigns labels is cross-checked against the model over the decoder library's tree / pairs (a table filled by the stage under test is not taken on trust)" % label,
+                  not unchecked, "; ".join("%s on %r" % (c["query"], unhex(r["msg"])) for c, r in unchecked[:3]))
+
+
 PIPE = {"line_filter": "PLineFilter", "label_filter": "PLabelFilter", "json": "PJson", "json_params": "PJsonParams", "logfmt": "PLogfmt",
         "regexp": "PRegexp", "line_format": "PLineFormat", "label_format": "PLabelFormat", "unwrap": "PUnwrap", "drop": "PDrop"}
 PIPE_STAGES = ("line_filter", "label_filter", "parser", "line_format", "label_format", "unwrap", "drop")
@@ -567,8 +662,10 @@ def run_cases(ck, cases, label):
     with ThreadPoolExecutor(max_workers=5) as ex:
         futs = [ex.submit(eval_chain_cases, ck, "C09_%s_%s" % (label, a[0]), a[1]) for a in shards]
         # while the shards are evaluated: the json / logfmt rows, the plan and the fingerprint cases (this thread)
+        fp_cases = fp_cases + fp_table_rows(ck, runnable, label)
         run_json_rows(ck, all_rows_cases, label)
         run_logfmt_rows(ck, all_rows_cases, label)
+        run_oracle_audit(ck, runnable, label)
         if planned:
             plan_res = eval_plan_cases(ck, "C09_%s_plan" % label, planned)
         if fp_cases:
@@ -720,11 +817,53 @@ def json_index_scan(ck):
                       "replay": "harness inteng --cases with {\"mode\":\"sql\",\"query\":...} prints the statement; the same query as a chain case gives the in-process labels"})
 
 
+COMPOSITE_FINDING = "json-path-ends-at-composite"
+
+
+def json_composite_scan(ck):
+    """a json parameter whose path ends at an object / array.  ClickHouse path: the real planner prints
+    if(JSONType(string, 'a') == 'String', JSONExtractString(string, 'a'), JSONExtractRaw(string, 'a')) -- for an object the raw
+    text (ClickHouse documentation of JSONExtractRaw: "returns a part of JSON as unparsed string"), a non-empty value that
+    becomes the label.  In process: the walker assigns nothing there (model InternalJson.walk, theorem
+    decoder_link_refuted_where_a_path_ends_at_an_object).  Both halves are read off the real code on every run; the recorded
+    finding is reported for exactly this input, any other reading is a violation."""
+    line = '{"a":{"b":1},"c":[1,2]}'
+    base = 1700000000 * 10 ** 9
+    cases = [{"id": 1, "mode": "sql", "class": "sql", "query": '{app="x"} | json x="a"', "from": base, "to": base + 60 * 10 ** 9, "limit": 10, "out": {"err": ""}},
+             {"id": 2, "class": "log", "query": '{app="x"} | line_format "{{._entry}}" | json x="a", y="c", z="a.b"', "from": base, "to": base + 60 * 10 ** 9, "limit": 10, "out": {"err": ""},
+              "in": [[{"ts": base + 1, "fp": 7, "labels": {"app": "x"}, "msg": binascii.hexlify(line.encode()).decode(), "val": "0x0p+00", "err": ""},
+                      {"ts": 0, "fp": 0, "labels": None, "msg": "", "val": "0x0p+00", "err": "eof"}]]}]
+    inp = os.path.join(ck.work, "jsoncomp_in.jsonl")
+    outp = os.path.join(ck.work, "jsoncomp.jsonl")
+    open(inp, "w").write("".join(json.dumps(c) + "\n" for c in cases))
+    rc, out = ck.go_run("inteng", ["--cases", inp, "--out", outp])
+    if rc != 0:
+        ck.obligation("harness inteng planned the json composite-path query on both engines", False, out[-1500:])
+        return
+    res = [json.loads(l) for l in open(outp)]
+    sql = " ".join((res[0].get("sql") or "").split())
+    ents = [e for e in (res[1]["out"].get("entries") or []) if e["err"] == ""]
+    inproc = (ents[0].get("labels") if ents else None) or {}
+    raw = re.search(r"if\(JSONType\(string, ?'a'\) ?== ?'String', ?JSONExtractString\(string, ?'a'\), ?JSONExtractRaw\(string, ?'a'\)\)", sql) is not None
+    ck.obligation("in process `| json z=\"a.b\"` still reads the scalar below the object (z=\"1\" on %s)" % line, inproc.get("z") == "1", "labels %s" % inproc)
+    known = ck.known_findings()
+    if raw and "x" not in inproc and "y" not in inproc and COMPOSITE_FINDING in known:
+        ck.report_known(COMPOSITE_FINDING, known[COMPOSITE_FINDING][:200])
+    elif inproc.get("x") == '{"b":1}' and inproc.get("y") == "[1,2]" and raw:
+        ck.obligation("a json path that ends at an object / array yields its text on both engines", True)
+    else:
+        ck.obligation("a json path that ends at an object / array is read the same way by both engines (or differs exactly as the recorded finding says)", False,
+                      "in process %s; ClickHouse call %s" % (inproc, sql[-300:]))
+        ck.violation({"property": PID, "kind": "the two engines read a json path that ends at an object / array differently, and not in the way the recorded finding describes",
+                      "query": '{app="x"} | json x="a", y="c"', "line": line, "in_process_labels": inproc, "clickhouse_statement_tail": sql[-500:],
+                      "replay": "harness inteng --cases (Mode sql for the statement; the log case with the line for the in-process labels)"})
+
+
 def run(ck):
     dead_code_scan(ck)
     negative_limit_scan(ck)
     ck.trusted += [
-        "C09: json/logfmt decoding, text/template rendering, regexp matching and strconv.ParseFloat are oracles (Section variables in the theorems; per-case tables computed by running the real stage / library on each single line in the correspondence); CityHash64 is an oracle",
+        "C09: json/logfmt decoding, text/template rendering, regexp matching and strconv.ParseFloat are oracles (Section variables in the theorems). Where the per-case tables come from: regexp rows = Go's regexp.Compile + MatchString called by the harness; ParseFloat rows = strconv.ParseFloat called by the harness; template rows = text/template + the documented function set (strings, regexp, sprig) executed by the harness (refRender), the real LineFormatterPlanner's rendering of the same single entry is compared with it; json / logfmt rows = the real ParserPlanner on the single line (code under test), every row that assigns labels is cross-checked against model/InternalJson.v over the value tree of go-faster/jx / the pairs of kr/logfmt read by the harness; fingerprint rows = the real `fingerprint` of hash.go (code under test), a sample of them and the generated label sets go through the hash.go structure check over CityHash64 values computed by the harness from go-faster/city. CityHash64 is an oracle",
         "C09: float64 is abstract in the theorems; the correspondence instantiates it with Coq's primitive binary64 floats; generated values keep cross-series sums exact so that Go's unspecified map iteration order cannot change a result",
         "C09: Go maps are not shared between entries on input (the ClickHouse getter builds a fresh map per row); the aggregators share one map among the entries of a series, and the stages after them apply the same idempotent cut to every sharer",
         "C09: the SQL engine's side of the cross-engine theorems is C07's reference semantics (model/LogqlSem.v run_stages), proved equal to sem_chain on line filter / label filter / json parameters / drop under the decoder link decoders_linked (no longer false for a missing path or an empty value since /repo 1b5bff2 + 7f68b19: Example missing_path_keeps_the_label_on_both_paths); the tie of that reference to the generated SQL is C07's theorem",
@@ -750,6 +889,7 @@ def run(ck):
             r, f = run_cases(ck, cs_, "corpus")
             allcases += r + f
     json_index_scan(ck)
+    json_composite_scan(ck)
     if ck.replay:
         outp = os.path.join(ck.work, "replay.jsonl")
         src = json.load(open(ck.replay))
